@@ -260,7 +260,9 @@ def run_tool_history(chk, sc, cfgseed, tool):
                 try:
                     refs[dn] = _run_tool(tool, os.path.join(dirs[dn], NAME), os.path.join(base, "ref_" + dn))
                 except Exception as e:
-                    raise core.MachineryError("reference run of %s failed: %r" % (tool, e))
+                    # a plain run of the tool on a well-formed plotfile under its absolute name: it has to succeed
+                    return "%s on the well-formed plotfile %s (absolute name, first run of the process) raised %s: %s" % (
+                        tool, os.path.join("run_" + dn, NAME), type(e).__name__, str(e)[:150])
         if len({core.jdump(r) for r in refs.values()}) < len(refs):
             raise core.MachineryError("the directories' plotfiles do not give distinct results for %s" % tool)
         os.chdir(dirs[sc["start"]])
